@@ -38,10 +38,12 @@ def make_item(models, k):
     tag = z3.Int('cls_%d' % k)
 
     class Item:
-        names = ['island', 'uuid']
+        names = ['island', 'uuid', 'err_ra', 'peak_flux']
         galactic = False
         island = k
         uuid = 'u%d' % k
+        err_ra = -1 if k == 0 else 0.000125 * (k + 1)          # the "no error" marker is a python int
+        peak_flux = 1.0000000000000002 * (k + 1)
         _k = k
 
         @property
@@ -98,8 +100,15 @@ def h_classify(cat, models, n):
         for nm, lst in (('_comp', comps), ('_isle', isles), ('_simp', simps)):
             if lst:
                 want['/some.dir/cat.v1%s.csv' % nm] = [x.uuid for x in lst]
-        got = {fn: d.get('uuid') for fn, d in written}
+        got = {fn: list(d.get('uuid')) for fn, d in written}
         c.oblige(tag + ':_comp/_isle/_simp files (suffix before the extension) hold exactly the sources of each type', z3.BoolVal(got == want))
+        okvals = True
+        for fn, d in written:
+            ids = [int(u[1:]) for u in d.get('uuid')]
+            for col in ('err_ra', 'peak_flux'):
+                vals = [float(v) for v in d.get(col)]
+                okvals = okvals and vals == [float(getattr(items[i], col)) for i in ids]
+        c.oblige(tag + ':every column handed to the table writer holds the exact values of its sources (also when the first one is the integer -1 marker)', z3.BoolVal(okvals))
         return dict()
     return h
 
@@ -198,11 +207,11 @@ def make_catalog(models, first_nan_dec=False, n=4):
     for k in range(n):
         s = models.ComponentSource()
         s.island, s.source = k, 0
-        s.ra, s.dec = 12.5 + k, (-45.1234567 - k)
+        s.ra, s.dec = 12.5 + k / 3.0, (-45.12345678901234 - k / 7.0)
         if first_nan_dec and k == 0:
             s.dec = real_np.nan
         s.ra_str, s.dec_str = at.dec2hms(s.ra), at.dec2dms(s.dec)
-        s.peak_flux, s.int_flux = (-1) ** k * 1.23456789012e-3 * (k + 1), 2.5e3
+        s.peak_flux, s.int_flux = (-1) ** k * 1.2345678901234567e-3 * (k + 1) / 3, 2.5e3 / 7 * (k + 1)
         s.err_peak_flux = -1 if k == 0 else 1.1e-5
         s.a, s.b, s.pa = 30.0, 20.0, 10.0
         s.flags = k
@@ -238,9 +247,17 @@ def oracle(fmt='fits', first_nan_dec=True):
                     return True, 'string-truncated', '%s row %d column %s: wrote %r, read back %r' % (fmt, k, col, getattr(s, col), got)
             if int(t['island'][k]) != s.island or int(t['flags'][k]) != s.flags:
                 return True, 'ints', 'island/flags changed in row %d' % k
-            tol = 1e-6 if fmt == 'fits' else 1e-12
-            if abs(float(t['peak_flux'][k]) - s.peak_flux) > tol * abs(s.peak_flux):
-                return True, 'precision', 'peak_flux row %d: %r vs %r (%s)' % (k, float(t['peak_flux'][k]), s.peak_flux, fmt)
+            for col in ('peak_flux', 'int_flux', 'ra', 'dec', 'err_peak_flux', 'a'):
+                want = getattr(s, col)
+                got = float(t[col][k])
+                if want != want:
+                    okv = got != got
+                elif fmt == 'fits':
+                    okv = abs(got - want) <= 1e-6 * abs(want)            # single precision
+                else:
+                    okv = got == float(want)                             # full double precision
+                if not okv:
+                    return True, ('precision' if abs(got - want) <= 1e-6 * abs(want) else 'values'), '%s row %d column %s: wrote %r, read back %r' % (fmt, k, col, want, got)
         if float(t['err_peak_flux'][0]) != -1:
             return True, 'marker', 'the -1 marker came back as %r' % float(t['err_peak_flux'][0])
         return False, None, None
